@@ -123,7 +123,7 @@ where
             idle_timeout_ms: cfg.get("idle_ms").and_then(|x| x.as_u64()).unwrap_or(0),
             notify_buffer: cfg.get("notify_buffer").and_then(|x| x.as_u64()).unwrap_or(8) as usize,
             per_conn_event_buffer: 7,
-            smart_dial: false,
+            smart_dial: cfg.get("smart").and_then(|x| x.as_bool()).unwrap_or(false),
         };
         let ids: Ids = make_ids(rc.npeers);
         let log = Log::default();
